@@ -26,6 +26,14 @@ def run(prog, R, tier="quick", only_rule=None):
     c18b(prog, R)
     c18c(prog, R)
     c04.c04a(prog, R, rid="C18.d")
+    # "never more": a version (and the tables it names) is visible in memory only after it was persisted
+    from rules.props import c02, c06
+    c02.c02a(prog, R, rid="C18.e")
+    # each mark is computed from one view of the version history (a rotation between two looks hides a memtable from both)
+    L = c06.LockFacts(prog, c06.CLASSES)
+    c06.c06h(prog, R, L, rid="C18.f", methods=("get_highest_memtable_seqno", "get_highest_persisted_seqno"), share_pin=False)
+    # "the same before and after reopen": every table comes back with the global seqno recorded for it
+    c04.c04h(prog, R, rid="C18.g")
 
 
 def c18b(prog, R):
